@@ -1,4 +1,6 @@
 import ChipFiring.Theory.EwdFull
+import ChipFiring.Theory.GoodOf
+import ChipFiring.Theory.Termination
 import ChipFiring.Model.Algos
 /-
   C02 — q-reduction returns the unique q-reduced representative of the class.
@@ -89,5 +91,25 @@ theorem isQReduced_refuted : ∃ G : Graph 3, Graph.new 3 false [(0, 1, 1), (1, 
 theorem isQReduced_partial (G : Graph n) (fuel : Nat) (Dv : Divisor n) (r : EwdOut n)
     (h : ewd G (fun _ => []) fuel Dv false = some (.ok r)) : isQReducedApi G fuel Dv = some true := by
   simp [isQReducedApi, h]
+
+/-- Headline form on connected graphs (no side conditions on the BFS): `q_reduction` returns, and
+    what it returns is the q-reduced representative of the input's class for the sink q = the
+    minimum-degree vertex of least name -/
+theorem q_reduction_spec (G : Graph n) (hG : G.WF) (hc : G.Connected) (hn : 0 < n)
+    (hint : Fin n → List (Fin n)) (Dv : Divisor n) :
+    ∃ F, ∀ fuel, F ≤ fuel → ∃ r q red, ewd G hint fuel Dv false = some (.ok r) ∧ r.q = some q ∧ r.red = some red ∧
+      (∀ v, Dv.deg q ≤ Dv.deg v) ∧ LinEq G Dv.deg red.D ∧ QReduced G q red.D ∧
+      (r.verdict = true ↔ 0 ≤ red.D q) := by
+  obtain ⟨q, hq⟩ := Option.isSome_iff_exists.mp (sink_isSome Dv.deg hn)
+  have hqn : q ∉ debtOrder G hint q := by unfold debtOrder; simp
+  have hcov := cover_of_connected G hG hc hint
+  obtain ⟨F, hF⟩ := reduceLoop_terminates G hG hc q (debtOrder G hint q) hqn (hcov q) Dv.deg
+  refine ⟨F, fun fuel hf => ?_⟩
+  obtain ⟨red, hred⟩ := hF fuel hf [Dv.degV] 0
+  have he : ewd G hint fuel Dv false = some (.ok ⟨decide (0 ≤ red.D q), some q, some red, (red.DV :: red.tr).reverse⟩) := by
+    unfold ewd
+    simp only [Bool.false_and, Bool.false_eq_true, if_false, hq, hred]
+  obtain ⟨hle, hqr⟩ := reduceLoop_qreduced G hG.symm q _ (hcov q) fuel fuel _ _ _ red hred
+  exact ⟨_, q, red, he, rfl, rfl, sink_min Dv.deg q hq, hle, hqr, by simp⟩
 
 end CF.C02
